@@ -98,6 +98,7 @@ def run(ctx):
             unk.append(enc.Case('unknown_content_type', ('tls_plaintext',), bytes([t, 3, 3]) + len(pl).to_bytes(2, 'big') + pl, [], None))
     common.run_differential(ctx, unk, common.proj_value,
                             classify=lambda c, r: 'unknown content type must be rejected with an error' if not r.startswith('error') else None)
+    common.run_cg(ctx, ('tls_plaintext ', 'tls_parser ', 'rec_with_hdr ', 'msg_'), common.proj_value)
     common.lean_failure_violation(ctx, ok)
     return ctx.finish(LEVEL,
         rule='records of every content type built from 1..n messages by the independent encoder (exact values, all versions), the derived two-step call on the same payload (exact: same messages, spans shifted, padding as remainder), payloads followed by a malformed message (exact: messages before it, tail as remainder), first-message-malformed and empty payloads (class: rejected), all 251 unknown content types (class: error), records of every content type sized at and around 2^14 and the 2^14+256 cap (exact), single-field corruptions and truncations (differential); distinct = (family, outcome shape)',
